@@ -59,7 +59,7 @@ def check(log, quiescent):
         tag = r[0]
         if tag == 'T':
             kinds[r[2]] = r[3]
-            due[r[2]] = r[4] + r[5]
+            due[r[2]] = r[8]
             lastT = r
         elif tag == 'P':
             Ps.append((r[1], r[2], r[3]))
